@@ -11,6 +11,7 @@
     num.digits textHex min max | num.fraction textHex max scale min | num.int64 textHex  → ok value index | fail
     iso.fmt <kind> fields…   → textHex
     iso.parse <kind> textHex → ok fields… | fail | !err
+    iso.fmt@ <kind> otherPatternHex fields… | iso.parse@ <kind> otherPatternHex textHex   (same answers: see `handle`)
     pyiso.date y m d | pyiso.time microsecondOfDay | pyiso.offset seconds → textHex
   kinds: date (y m d) | time, timelong, timegen (nanosecond of day) | dt, dtgen, dtbcl, inst, instgen (y m d nod)
          | off, offz (seconds)
@@ -112,6 +113,16 @@ def handle (toks : List String) : Option String :=
       let a ← parseInts? args
       isoFmt kind a
   | ["iso.parse", kind, t] => do
+      let t ← decodeText t
+      isoParse kind t
+  -- `iso.fmt@` / `iso.parse@` carry the text of ANOTHER pattern that the implementation creates between fetching the
+  -- built-in pattern object and using it; the model's answer does not depend on it (no state is shared between patterns)
+  | "iso.fmt@" :: kind :: other :: args => do
+      let _ ← decodeText other
+      let a ← parseInts? args
+      isoFmt kind a
+  | ["iso.parse@", kind, other, t] => do
+      let _ ← decodeText other
       let t ← decodeText t
       isoParse kind t
   | ["pyiso.date", y, m, d] => do
